@@ -94,3 +94,29 @@ def write_tree(root, files):
         os.makedirs(os.path.dirname(p), exist_ok=True)
         with open(p, "w") as f:
             f.write(text)
+
+
+@contextlib.contextmanager
+def tracing(path):
+    """Enable the CBI_VERIF hooks for the duration of the block, writing NDJSON to `path`."""
+    from codebasin._detail import verif
+    if not path:
+        old = verif.ENABLED
+        verif.ENABLED = False
+        try:
+            yield
+        finally:
+            verif.ENABLED = old
+        return
+    old = verif.ENABLED
+    old_env = os.environ.get("CBI_VERIF_TRACE")
+    os.environ["CBI_VERIF_TRACE"] = path
+    verif.ENABLED = True
+    try:
+        yield
+    finally:
+        verif.ENABLED = old
+        if old_env is None:
+            os.environ.pop("CBI_VERIF_TRACE", None)
+        else:
+            os.environ["CBI_VERIF_TRACE"] = old_env
